@@ -263,5 +263,5 @@ def slices():
 
 BUDGET = {
     "quick": {"format": 1500, "rv-tables": 300, "toy-tables": 300, "tables-history": 300},
-    "thorough": {"format": "exhaustive", "rv-tables": 5000, "toy-tables": 5000, "tables-history": 8000},
+    "thorough": {"format": ("exhaustive", 20000), "rv-tables": 5000, "toy-tables": 5000, "tables-history": 8000},
 }
